@@ -7,6 +7,10 @@
 (* keys / vals are the abstract integers of the case; the adapter maps concrete     *)
 (* outputs (floats, strings, records, ...) back through the inverse of the monotone *)
 (* injection it used for the input, -1 standing for "not a value of the input".     *)
+(* Scale cases (SortScale.tla) come run-length encoded instead:                     *)
+(*   {"id": k, "c": {"variant": .., "keys": [[a, d, k], ..], "valmode": ..},        *)
+(*             "obs": [{"err": .., "pr": [[a, d, b, e, k], ..]}, ...]}              *)
+(* and are judged by the same clauses on the encoding (Algo!SortFailingR).          *)
 (* Rejected records are printed with <<observation index, clause>> pairs.           *)
 EXTENDS Algo, Json, IOUtils
 
@@ -22,7 +26,9 @@ PickTrace == blk > 0 /\ tid = 0
              /\ \E t \in ((blk - 1) * BlockSize + 1)..VMin2(blk * BlockSize, NT) : tid' = t /\ blk' = blk
 Next == PickBlock \/ PickTrace
 
-FailingRec(r) == UNION {{<<k, f>> : f \in SortFailing(r.c, r.obs[k])} : k \in DOMAIN r.obs}
+\* scale cases carry run-length encoded arrays (c.keys ramps, c.valmode; obs[k].pr pair ramps): Algo!SortFailingR
+FailingObs(c, o) == IF "valmode" \in DOMAIN c THEN SortFailingR(c, o) ELSE SortFailing(c, o)
+FailingRec(r) == UNION {{<<k, f>> : f \in FailingObs(r.c, r.obs[k])} : k \in DOMAIN r.obs}
 
 Check == tid > 0 =>
     LET r == Traces[tid]  f == FailingRec(r)
